@@ -2,19 +2,125 @@
 //! in the net build. `io` is std's; `net` is an in-memory duplex stream with seeded short
 //! reads / short writes and TCP-like shutdown; `thread` and `sync::mpsc` are shuttle's, so the
 //! interleaving of the real worker threads with the run loop is decided by shuttle's scheduler.
+//! `time` is a simulated clock that only `thread::sleep` advances (nothing in the socket path reads a clock today;
+//! a change that adds a timeout there meets simulated time, not the host's), and `thread::JoinHandle` has
+//! `is_finished`. The emulator-to-controller direction can have a bounded buffer (back-pressure on the send worker).
 
 // everything the facade does not substitute is std's
 pub use std::{
     any, borrow, boxed, cell, char, clone, cmp, collections, convert, default, env, error, fmt, hash, iter, marker, mem, num, ops, option, rc, result, slice,
-    str, string, time, vec,
+    str, string, vec,
 };
+
+pub mod time {
+    pub use std::time::{Duration, SystemTime, UNIX_EPOCH};
+    use std::sync::atomic::{AtomicU64, Ordering};
+    static NOW_NS: AtomicU64 = AtomicU64::new(0);
+    pub fn reset() {
+        NOW_NS.store(0, Ordering::SeqCst);
+    }
+    pub fn advance(d: Duration) {
+        NOW_NS.fetch_add(d.as_nanos().min(u64::MAX as u128 / 4) as u64, Ordering::SeqCst);
+    }
+    #[derive(Clone, Copy, Debug, PartialEq, Eq, PartialOrd, Ord, Hash)]
+    pub struct Instant(u64);
+    impl Instant {
+        pub fn now() -> Instant {
+            Instant(NOW_NS.load(Ordering::SeqCst))
+        }
+        pub fn elapsed(&self) -> Duration {
+            Duration::from_nanos(NOW_NS.load(Ordering::SeqCst).saturating_sub(self.0))
+        }
+        pub fn duration_since(&self, earlier: Instant) -> Duration {
+            Duration::from_nanos(self.0.saturating_sub(earlier.0))
+        }
+        pub fn saturating_duration_since(&self, earlier: Instant) -> Duration {
+            self.duration_since(earlier)
+        }
+        pub fn checked_add(&self, d: Duration) -> Option<Instant> {
+            Some(*self + d)
+        }
+    }
+    impl std::ops::Add<Duration> for Instant {
+        type Output = Instant;
+        fn add(self, d: Duration) -> Instant {
+            Instant(self.0.saturating_add(d.as_nanos().min(u64::MAX as u128) as u64))
+        }
+    }
+    impl std::ops::Sub<Duration> for Instant {
+        type Output = Instant;
+        fn sub(self, d: Duration) -> Instant {
+            Instant(self.0.saturating_sub(d.as_nanos().min(u64::MAX as u128) as u64))
+        }
+    }
+    impl std::ops::Sub<Instant> for Instant {
+        type Output = Duration;
+        fn sub(self, o: Instant) -> Duration {
+            self.duration_since(o)
+        }
+    }
+}
 
 pub mod io {
     pub use std::io::*;
 }
 
 pub mod thread {
-    pub use shuttle::thread::*;
+    pub use shuttle::thread::{current, park, yield_now, Builder, Thread, ThreadId};
+    use std::sync::atomic::{AtomicBool, Ordering};
+    use std::sync::Arc;
+
+    /// The harness plays `main`: while it drops the Cpu after a run that ended in an error, the real main thread would be
+    /// unwinding from `run().unwrap()`. (A real unwind cannot be used under shuttle - its primitives poison themselves
+    /// when they are released by a panicking thread.)
+    static MAIN_UNWINDING: AtomicBool = AtomicBool::new(false);
+    pub fn set_main_unwinding(on: bool) {
+        MAIN_UNWINDING.store(on, Ordering::SeqCst);
+    }
+    pub fn panicking() -> bool {
+        MAIN_UNWINDING.load(Ordering::SeqCst) || std::thread::panicking()
+    }
+
+    /// shuttle's handle plus `is_finished` (set when the thread's closure has returned or unwound)
+    pub struct JoinHandle<T> {
+        inner: shuttle::thread::JoinHandle<T>,
+        done: Arc<AtomicBool>,
+    }
+    struct SetOnDrop(Arc<AtomicBool>);
+    impl Drop for SetOnDrop {
+        fn drop(&mut self) {
+            self.0.store(true, Ordering::SeqCst);
+        }
+    }
+    impl<T> JoinHandle<T> {
+        pub fn join(self) -> std::thread::Result<T> {
+            self.inner.join()
+        }
+        pub fn is_finished(&self) -> bool {
+            self.done.load(Ordering::SeqCst)
+        }
+        pub fn thread(&self) -> &Thread {
+            self.inner.thread()
+        }
+    }
+    pub fn spawn<F, T>(f: F) -> JoinHandle<T>
+    where
+        F: FnOnce() -> T + Send + 'static,
+        T: Send + 'static,
+    {
+        let done = Arc::new(AtomicBool::new(false));
+        let d2 = done.clone();
+        let inner = shuttle::thread::spawn(move || {
+            let _set = SetOnDrop(d2);
+            f()
+        });
+        JoinHandle { inner, done }
+    }
+    /// simulated sleep: the clock moves on by `d`, the scheduler gets one decision
+    pub fn sleep(d: std::time::Duration) {
+        super::time::advance(d);
+        shuttle::thread::yield_now();
+    }
 }
 
 pub mod sync {
@@ -34,6 +140,8 @@ pub mod net {
     struct Dir {
         buf: VecDeque<u8>,
         closed: bool,
+        /// 0 = unbounded; otherwise a write blocks while this many bytes are waiting to be read
+        cap: usize,
     }
 
     struct Chan {
@@ -69,10 +177,12 @@ pub mod net {
     }
 
     /// (emulator end, controller end, handle to end the emulator process)
-    pub fn pair(short: bool) -> (TcpStream, TcpStream, ProcessHandle) {
+    /// `cap_to_peer`: buffer bound of the emulator-to-controller direction (0 = unbounded)
+    pub fn pair(short: bool, cap_to_peer: usize) -> (TcpStream, TcpStream, ProcessHandle) {
         PROCESS_GONE.store(false, std::sync::atomic::Ordering::SeqCst);
+        super::time::reset();
         let a = Arc::new(Chan { m: Mutex::new(Dir::default()), cv: Condvar::new() });
-        let b = Arc::new(Chan { m: Mutex::new(Dir::default()), cv: Condvar::new() });
+        let b = Arc::new(Chan { m: Mutex::new(Dir { cap: cap_to_peer, ..Dir::default() }), cv: Condvar::new() });
         (TcpStream { rx: a.clone(), tx: b.clone(), short, emu: true }, TcpStream { rx: b.clone(), tx: a, short, emu: false }, ProcessHandle { to_peer: b })
     }
 
@@ -119,6 +229,11 @@ pub mod net {
                     for slot in out.iter_mut().take(n) {
                         *slot = d.buf.pop_front().unwrap();
                     }
+                    if d.cap != 0 {
+                        // room again for a writer that waits
+                        drop(d);
+                        self.rx.cv.notify_all();
+                    }
                     return Ok(n);
                 }
                 if d.closed {
@@ -135,14 +250,22 @@ pub mod net {
                 return Ok(0);
             }
             let mut d = self.tx.m.lock().unwrap();
-            if self.emu && PROCESS_GONE.load(std::sync::atomic::Ordering::SeqCst) {
-                // the thread no longer exists in the real world: nothing it writes arrives
-                return Ok(data.len());
+            loop {
+                if self.emu && PROCESS_GONE.load(std::sync::atomic::Ordering::SeqCst) {
+                    // the thread no longer exists in the real world: nothing it writes arrives
+                    return Ok(data.len());
+                }
+                if d.closed {
+                    return Err(io::Error::new(io::ErrorKind::BrokenPipe, "peer closed"));
+                }
+                if d.cap == 0 || d.buf.len() < d.cap {
+                    break;
+                }
+                // the peer's receive buffer (and ours) is full: a blocking write waits
+                d = self.tx.cv.wait(d).unwrap();
             }
-            if d.closed {
-                return Err(io::Error::new(io::ErrorKind::BrokenPipe, "peer closed"));
-            }
-            let n = if self.short && data.len() > 1 { 1 + ({ use shuttle::rand::RngCore; shuttle::rand::thread_rng().next_u64() } as usize) % data.len() } else { data.len() };
+            let room = if d.cap == 0 { data.len() } else { (d.cap - d.buf.len()).min(data.len()) };
+            let n = if self.short && room > 1 { 1 + ({ use shuttle::rand::RngCore; shuttle::rand::thread_rng().next_u64() } as usize) % room } else { room };
             d.buf.extend(&data[..n]);
             drop(d);
             self.tx.cv.notify_all();
